@@ -114,7 +114,7 @@ class IdentityLinearOperator(ConstantDiagLinearOperator):
         other: Union[Float[torch.Tensor, "... #M #N"], Float[LinearOperator, "... #M #N"]],
     ) -> Float[LinearOperator, "... M N"]:
         # I * other (elementwise) is the diagonal part of other
-        diag = other._diagonal()
+        diag = self._broadcast_diagonal_of(other)
         batch_shape = torch.broadcast_shapes(self.batch_shape, diag.shape[:-1])
         return DiagLinearOperator(diag.expand(*batch_shape, diag.shape[-1]))
 
